@@ -236,6 +236,22 @@ pub fn history_props(id: &str) -> Option<HistoryProp> {
                     quick: 96,
                     thorough: 1500,
                 },
+                // grow / mass deletion / regrow under every memory hint
+                HistoryTier {
+                    label: "C14-regrow",
+                    gen: GenCfg {
+                        rounds: (3, 4),
+                        first_ops: (0, 40),
+                        later_ops: (0, 40),
+                        id_pool: (1300, 4000),
+                        regrow: Some((300, 1500)),
+                        dims: vec![(3, vec![2, 3]), (1, vec![16])],
+                        split_after: vec![(2, vec![None]), (3, vec![Some(1), Some(3), Some(8), Some(20)]), (1, vec![Some(250)])],
+                        ..gen_c14()
+                    },
+                    quick: 64,
+                    thorough: 3000,
+                },
                 HistoryTier {
                     label: "C14-small",
                     gen: GenCfg {
@@ -274,6 +290,27 @@ pub fn history_props(id: &str) -> Option<HistoryProp> {
                 },
                 quick: 6000,
                 thorough: 150_000,
+            },
+            // capacity under memory-limited, multi-batch builds: hundreds of items inserted into forests that
+            // deletions and tree-count changes have left with free node ids
+            HistoryTier {
+                label: "C15-mem",
+                gen: GenCfg {
+                    constant_split_after: true,
+                    rounds: (3, 4),
+                    first_ops: (0, 40),
+                    later_ops: (0, 40),
+                    id_pool: (1300, 4000),
+                    regrow: Some((300, 1500)),
+                    dims: vec![(3, vec![2, 3]), (1, vec![16])],
+                    op_weights: [65, 35, 0, 0, 0],
+                    split_after: vec![(2, vec![None]), (4, vec![Some(1), Some(3), Some(8), Some(20)])],
+                    n_trees: vec![(2, vec![None]), (5, vec![Some(1), Some(2), Some(3), Some(6)])],
+                    avail_mem: vec![(1, vec![None]), (6, vec![Some(0), Some(4096), Some(3 * 4096), Some(10 * 4096), Some(40 * 4096)])],
+                    ..gen_c14()
+                },
+                quick: 96,
+                thorough: 4000,
             }],
             nontrivial: |_h, st| st.get("tree_count_changed_above_cap") > 0,
             assumptions: base_assume,
@@ -349,9 +386,9 @@ fn gen_bulk() -> GenCfg {
         threads: vec![1, 4, 16],
         op_weights: [70, 28, 2, 0, 0],
         avail_mem: medium_mem(),
-        // a few forests of 10-20 trees with single-item buckets: hundreds of thousands of tree nodes, node ids far
+        // a few forests of 8 trees with single-item buckets: a hundred thousand tree nodes, node ids
         // beyond one 65536-block
-        n_trees: vec![(2, vec![None]), (6, vec![Some(1), Some(2), Some(3)]), (1, vec![Some(10), Some(20)])],
+        n_trees: vec![(3, vec![None]), (8, vec![Some(1), Some(2), Some(3)]), (1, vec![Some(8)])],
         split_after: vec![(3, vec![None]), (3, vec![Some(1), Some(2), Some(10), Some(50)]), (1, vec![Some(5000), Some(10_000)])],
         abort_pct: 0,
         build_pct: 100,
